@@ -5,7 +5,8 @@
 (* calls); TLC enumerates every interleaving of their steps, both          *)
 (* destruction orders of the user's thread-local (which holds the Ccs)     *)
 (* versus the collector's own thread-locals, and both ways of exiting      *)
-(* (handles dropped by the thread-local destructor / leaked).              *)
+(* (handles dropped by the thread-local destructor / leaked / a            *)
+(* collection requested from that destructor first).                       *)
 (*                                                                         *)
 (* The abstract state of a thread is the vector of its public counters     *)
 (* (objects allocated, buffered, collections executed, auto-collect flag). *)
@@ -18,6 +19,9 @@
 EXTENDS Naturals, Sequences, TLC, Json
 
 CONSTANTS K, Progs   \* number of threads, set of program indices
+\* how a thread ends: the user's thread-local destructor drops the handles ("drop"), leaks them ("leak"), or first
+\* calls collect_cycles() - which finds the collector's own thread-locals alive or already destroyed - and then drops them ("collect")
+ExitModes == {"drop", "leak", "collect"}
 
 \* Effect of step i of program p on [alloc, buf, exec, auto]; mirrors the harness catalogue (harness/src/threads.rs)
 \* p1: new a; clone a; drop a            -> a alive, buffered
@@ -44,7 +48,7 @@ T == 1..K
 
 Init == /\ prog \in [T -> Progs]
         /\ order \in [T -> {"user_first", "buffer_first"}]
-        /\ exit \in [T -> {"drop", "leak"}]
+        /\ exit \in [T -> ExitModes]
         /\ pos = [t \in T |-> 0]
         /\ loc = [t \in T |-> Zero]
         /\ sched = <<>>
